@@ -47,13 +47,14 @@ const WORDS: &[&str] = &[
     "e\u{301}", "😀", "a-b", "don't", "1st", "2)", "end.", "(paren)", "semi;", "co:lon", "a/b", "100%", "a=b", "x-", "c+",
 ];
 
-/// Exotic mode (VERIF_EXOTIC=1) switches on constructs in whose neighbourhood the unchanged tree
-/// has many recorded defects (comments at arbitrary token gaps and inside math arguments, `\\`
-/// line breaks directly before closing delimiters, marker-like words at the start of content).
-/// It is for exploration; the registered checks run without it.
+/// Exotic mode switches on comments at arbitrary token gaps (keyword gaps, around `=`, `=>`, `:`,
+/// inside math and math arguments) and, rarely, `\\` line breaks directly before closing
+/// delimiters. It is ON in the registered checks (the first sessions had it off because the
+/// pinned tree failed in too many ways there; after the `fix:` commits it is tractable);
+/// VERIF_EXOTIC=0 switches it off.
 pub fn exotic_mode() -> bool {
     static E: std::sync::OnceLock<bool> = std::sync::OnceLock::new();
-    *E.get_or_init(|| std::env::var("VERIF_EXOTIC").is_ok_and(|v| v == "1"))
+    *E.get_or_init(|| !std::env::var("VERIF_EXOTIC").is_ok_and(|v| v == "0"))
 }
 
 pub fn document(t: &mut Tape, focus: Focus) -> String {
@@ -1107,8 +1108,10 @@ impl<'t, 'd> G<'t, 'd> {
             }
             10 => self.p("&"),
             11 => {
-                if !self.exotic && d > 0 {
-                    // a line break directly before a closing delimiter / separator is finding R11
+                // a line break directly before a closing delimiter / separator is finding R11:
+                // mostly avoided by construction (a word follows), rarely generated
+                let r11 = self.exotic && self.t.chance(40);
+                if !r11 && d > 0 {
                     self.p("z");
                     return;
                 }
@@ -1119,7 +1122,7 @@ impl<'t, 'd> G<'t, 'd> {
                 } else {
                     self.p(" ")
                 }
-                if !self.exotic {
+                if !r11 {
                     self.p("w");
                 }
             }
